@@ -572,22 +572,16 @@ func (vm *VM) nextCall() bool {
 			// A deferred call is returned. If there is another deferred
 			// call, it will be executed, otherwise the previous call will be
 			// finalized.
-			if i > 0 {
-				prev := vm.calls[i-1]
-				if prev.status == deferred {
-					vm.swapStack(&prev.fp, &call.fp, call.cl.fn.NumReg)
-					call, vm.calls[i-1] = prev, call
-					break
-				}
-			}
-			if regs := call.cl.fn.FinalRegs; regs != nil {
-				vm.fp = call.fp
-				vm.finalize(regs)
-			}
 			if call.status == recovered {
+				// The deferred call that has recovered the panic is
+				// returned: the panic is over, also if other deferred calls
+				// of the recovered call are still to be executed.
+				// A call that is panicked, or that is recovered but whose
+				// recovering deferred call is not returned yet, still has
+				// its panic.
 				numPanicked := 0
-				for _, c := range vm.calls {
-					if c.status == panicked {
+				for j, c := range vm.calls {
+					if c.status == panicked || c.status == recovered && j != i {
 						numPanicked++
 					}
 				}
@@ -599,6 +593,20 @@ func (vm *VM) nextCall() bool {
 					p = p.next
 					vm.panic = p
 				}
+				call.status = returned
+				vm.calls[i] = call
+			}
+			if i > 0 {
+				prev := vm.calls[i-1]
+				if prev.status == deferred {
+					vm.swapStack(&prev.fp, &call.fp, call.cl.fn.NumReg)
+					call, vm.calls[i-1] = prev, call
+					break
+				}
+			}
+			if regs := call.cl.fn.FinalRegs; regs != nil {
+				vm.fp = call.fp
+				vm.finalize(regs)
 			}
 			continue
 		case panicked:
